@@ -358,6 +358,10 @@ def run(ctx):
             cases.append({"stream": "default:" + shape, "pkg": G.gen_default_shape(rng, shape)})
         for _ in range(3 * k):
             cases.append({"stream": "magefiles-dir", "pkg": G.gen_package(rng)})
+        # ... with tagged and UNTAGGED files mixed (in a magefiles directory every go file counts), reached plainly and
+        # through a symbolic link called magefiles that points to a directory with another name
+        for v in ["plain", "link", "link-abs"] * k:
+            cases.append({"stream": "magefiles-dir:mixed-" + v, "pkg": G.gen_package(rng, nfiles=rng.choice([2, 3]))})
         for j in range(6 * k):
             cases.append({"stream": "unicode", "pkg": G.gen_unicode(rng, safe=(j % 2 == 0))})
         for j in range(6 * k):
@@ -394,14 +398,25 @@ def run(ctx):
         pkg = c["pkg"]
         pname = "p%04d" % (mage.n + 1)
         files = G.render_package(pkg, pname)
-        if c["stream"] == "magefiles-dir":
+        if c["stream"].startswith("magefiles-dir"):
             # the magefiles live in ./magefiles next to files the go tool EXCLUDES from the package on this
             # platform: their exported functions are not part of the magefile package
-            files = {("magefiles/" + k if k.startswith("mf_") else k): v for k, v in files.items()}
-            files["magefiles/other_windows.go"] = "package main\n\n// OnlyWindows exists on another platform only.\nfunc OnlyWindows() {}\n"
-            files["magefiles/gen_tool.go"] = "//go:build ignore\n\npackage main\n\n// Generate belongs to a go:generate tool.\nfunc Generate(n int) error { return nil }\n\nfunc main() {}\n"
+            sub = "magefiles/" if c["stream"] in ("magefiles-dir", "magefiles-dir:mixed-plain") else "tools/mage/"
+            files = {(sub + k if k.startswith("mf_") else k): v for k, v in files.items()}
+            if ":mixed-" in c["stream"]:
+                # only the first file keeps its build constraint (the generator's own choice, not mage's)
+                for j, k2 in enumerate(sorted(k2 for k2 in files if k2.startswith(sub + "mf_"))):
+                    if j > 0:
+                        files[k2] = files[k2].replace("//go:build mage\n\n", "", 1)
+            files[sub + "other_windows.go"] = "package main\n\n// OnlyWindows exists on another platform only.\nfunc OnlyWindows() {}\n"
+            files[sub + "gen_tool.go"] = "//go:build ignore\n\npackage main\n\n// Generate belongs to a go:generate tool.\nfunc Generate(n int) error { return nil }\n\nfunc main() {}\n"
         c["dir"] = mage.project(files, name=pname)
-        c["src"] = os.path.join(c["dir"], "magefiles") if c["stream"] == "magefiles-dir" else c["dir"]
+        c["src"] = c["dir"]
+        if c["stream"].startswith("magefiles-dir"):
+            c["src"] = os.path.join(c["dir"], "magefiles")
+            if ":mixed-link" in c["stream"]:
+                c["src"] = os.path.join(c["dir"], "tools", "mage")
+                os.symlink(c["src"] if c["stream"].endswith("-abs") else os.path.join("tools", "mage"), os.path.join(c["dir"], "magefiles"))
         if c["stream"].startswith("symlink:"):
             make_symlinks(c)
         c["files"] = sorted(f for f in os.listdir(c["src"]) if f.startswith("mf_"))
